@@ -27,7 +27,7 @@ from translate import c18_table as T
 
 KNOWN = {
     'anf-sibling-order', 'anf-assign-target-order', 'anf-dict-order', 'anf-slice-hoisted',
-    'anf-target-hoisted', 'anf-operator-hoisted', 'anf-boolop-test-double-truth', 'anf-pending-lost', 'anf-starred-unpack-order',
+    'anf-target-hoisted', 'anf-operator-hoisted', 'anf-boolop-test-double-truth', 'anf-gensym-user-name-collision', 'anf-pending-lost', 'anf-starred-unpack-order',
 }
 
 
@@ -47,13 +47,17 @@ def run_impl(src, config):
     """-> ('ok', FunctionDef) | ('err', exception type name, message)"""
     from malt.pyct.common_transformers import anf
     node = ast.parse(src).body[0]
+    before = {id(n) for n in ast.walk(node) if isinstance(n, ast.stmt)}     # `node` stays alive: ids are not reused
     try:
         out = anf.transform(node, _ctx(), config)
     except (ValueError, AssertionError) as e:
         return ('err', type(e).__name__, str(e)[:120])
     except Exception as e:   # noqa
         return ('crash', type(e).__name__, str(e)[:200])
-    return ('ok', out)
+    # the statements the transformer created (the original statement objects are reused in place)
+    hoisted = [n.targets[0].id for n in ast.walk(out) if isinstance(n, ast.Assign) and id(n) not in before
+               and len(n.targets) == 1 and isinstance(n.targets[0], ast.Name)]
+    return ('ok', out, hoisted)
 
 
 def unparse(node):
@@ -73,21 +77,35 @@ def tmp_names(node):
     return [n.id for n in ast.walk(node) if isinstance(n, ast.Name) and X.TMP_RE.match(n.id)]
 
 
-def shape_failures(orig, out, config):
+def user_names(orig):
+    return {n.id for n in ast.walk(orig) if isinstance(n, ast.Name)} | {a.arg for a in ast.walk(orig) if isinstance(a, ast.arg)}
+
+
+def hoisted_user_collision(orig, out):
+    """a hoisted `tmp_k = ...` whose name is a variable of the program it was applied to"""
+    def count(tree):
+        c = {}
+        for n in ast.walk(tree):
+            if isinstance(n, ast.Assign) and len(n.targets) == 1 and isinstance(n.targets[0], ast.Name):
+                c[n.targets[0].id] = c.get(n.targets[0].id, 0) + 1
+        return c
+    co, ct = count(orig), count(out)
+    return sorted(x for x in user_names(orig) if X.TMP_RE.match(x) and ct.get(x, 0) > co.get(x, 0))
+
+
+def shape_failures(orig, out, config, hoisted):
     """Property text, output-shape part: judged on the output of the real transformer.
     -> list of (what, detail)"""
     from malt.pyct.common_transformers import anf
     bad = []
-    # temporaries: assigned exactly once, by a simple `tmp = expr` statement, pairwise distinct,
-    # distinct from every name of the original program
-    user = {n.id for n in ast.walk(orig) if isinstance(n, ast.Name)} | {a.arg for a in ast.walk(orig) if isinstance(a, ast.arg)}
-    assigned = []
-    for n in ast.walk(out):
-        if isinstance(n, ast.Assign) and len(n.targets) == 1 and isinstance(n.targets[0], ast.Name) \
-                and X.TMP_RE.match(n.targets[0].id) and n.targets[0].id not in user:
-            assigned.append(n.targets[0].id)
-    if len(assigned) != len(set(assigned)):
-        bad.append(('a temporary is assigned by two hoisted statements', sorted(x for x in set(assigned) if assigned.count(x) > 1)[0]))
+    # temporaries: each introduced by exactly one hoisted statement, pairwise distinct,
+    # distinct from every name of the program
+    dup = sorted(x for x in set(hoisted) if hoisted.count(x) > 1)
+    if dup:
+        bad.append(('a temporary is assigned by two hoisted statements', dup[0]))
+    clash = sorted(set(hoisted) & user_names(orig))
+    if clash:
+        bad.append(('a temporary has the name of a variable of the program', clash[0]))
     # every position the configuration asks to be named holds a name or literal afterwards
     t = G.SpecConfig(config, anf)       # the documented reading of the configuration, not the implementation's
     strict = (ast.Call, ast.BinOp, ast.UnaryOp, ast.Compare, ast.Attribute, ast.Subscript, ast.Dict, ast.Set,
@@ -166,6 +184,10 @@ def classify(orig, out, config, what, detail=None):
         used = set(tmp_names(out))
         if used - assigned:
             return 'anf-pending-lost'
+    # DummyGensym does not look at the program: a variable / parameter named tmp_1NNN (also: the
+    # temporaries of an earlier ANF pass) is reused as a temporary
+    if out is not None and what in ('gensym', 'order') and hoisted_user_collision(orig, out):
+        return 'anf-gensym-user-name-collision'
     # `if a and b:` -> `tmp = a and b; if tmp:` tests the truth of the deciding operand twice
     if what == 'order' and isinstance(detail, dict) and any(
             isinstance(n, ast.If) and isinstance(n.test, ast.BoolOp) for n in ast.walk(orig)):
@@ -229,7 +251,7 @@ def oracle(src, config, seed):
     lazies = lazy_positions(orig, config)
     if res[0] == 'err':
         return 'rejected', [], None
-    out = res[1]
+    out, hoisted = res[1], res[2]
     if lazies:
         # accepted although a lazy construct needs hoisting: must have been left untouched
         keep = {ast.dump(n) for n in lazies}
@@ -242,8 +264,8 @@ def oracle(src, config, seed):
             if ast.dump(n) not in have:
                 fails.append(('lazy', 'a lazy construct that needs hoisting was transformed instead of rejected', unparse(n)))
                 break
-    for what, detail in shape_failures(orig, out, config):
-        fails.append(('shape', what, detail))
+    for what, detail in shape_failures(orig, out, config, hoisted):
+        fails.append(('gensym' if 'temporary' in what else 'shape', what, detail))
     # execution: same result, same events in the same order
     try:
         o1 = copy.deepcopy(out)
@@ -272,6 +294,7 @@ def _programs(run):
     from malt.pyct.common_transformers import anf
     thorough = (run.tier == 'thorough')
     n_model, n_wide, n_lazy = (2400, 1500, 600) if thorough else (700, 400, 200)
+    n_gensym = 500 if thorough else 150
     progs = []
     corpus = os.path.join(vlib.ROOT, 'corpus', 'C18')
     if os.path.isdir(corpus):
@@ -302,6 +325,11 @@ def _programs(run):
         g = G.Gen(rnd, 'wide', lazy=0.02, maxdepth=rnd.choice([1, 2, 3]))
         cfg, cd = G.gen_config(rnd, anf)
         progs.append(('wide', g.program(depth=rnd.choice([0, 1, 2])), cfg, cd))
+    for i in range(n_gensym):
+        # variables / parameters named like generated temporaries, in every role
+        g = G.Gen(rnd, 'model', lazy=0.0, maxdepth=rnd.choice([1, 2, 2, 3]))
+        cfg, cd = G.gen_config(rnd, anf)
+        progs.append(('gensym', G.rename_to_gensym(g.program(depth=rnd.choice([0, 1, 2])), rnd), cfg, cd))
     for i in range(n_lazy):
         g = G.Gen(rnd, 'model', lazy=0.25, maxdepth=2)
         cfg, cd = G.gen_config(rnd, anf)
@@ -344,7 +372,10 @@ def _check(run):
     cases = []
     failures = []      # (kind, what, doc, classification)
     stats = {'accepted': 0, 'rejected': 0, 'crashed': 0, 'guard_holds': 0, 'in_model': 0, 'changed': 0}
-    for idx, (stream, src, cfg, cd) in enumerate(progs):
+    idx = -1
+    while idx + 1 < len(progs):
+        idx += 1
+        stream, src, cfg, cd = progs[idx]
         run.count()
         orig = ast.parse(src).body[0]
         status, fails, out = oracle(src, cfg, run.seed + idx)
@@ -356,6 +387,10 @@ def _check(run):
             if ast.dump(out) != ast.dump(orig):
                 stats['changed'] += 1
                 run.nontriv(str(idx))
+        if status == 'accepted' and cfg is not None and not fails and stream in ('model', 'gensym', 'fixed') \
+                and idx % 2 == 0 and ast.dump(out) != ast.dump(orig):
+            # two-pass application: the output of this configuration is fed to the default configuration
+            progs.append(('twopass', unparse(out) + '\n', None, 'default (second pass; input = output of %s)' % cd))
         for kind, what, detail in fails:
             cl = classify(orig, out, cfg, kind, detail)
             failures.append((kind, what, _replay_doc(src, cd, kind, what, detail, out, run.seed + idx), cl))
@@ -449,7 +484,7 @@ def replay(path):
     r = doc.get('replay', {})
     if 'program' in r:
         from malt.pyct.common_transformers import anf   # noqa
-        cfg = None if r['config'] == 'default' else eval(r['config'], {'anf': anf, 'ast': ast, 'ANY': anf.ANY})
+        cfg = None if r['config'].startswith('default') else eval(r['config'], {'anf': anf, 'ast': ast, 'ANY': anf.ANY})
         status, fails, out = oracle(r['program'], cfg, r.get('oracle_seed', 0))
         print('status now:', status)
         for f in fails:
